@@ -2,6 +2,7 @@ package display
 
 import (
 	"fmt"
+	"strings"
 
 	"github.com/reeflective/readline/inputrc"
 	"github.com/reeflective/readline/internal/color"
@@ -256,15 +257,27 @@ func (e *Engine) displayLine() {
 		line += color.Dim + color.Fmt(color.Fg+"242") + string(e.suggested[e.line.Len():]) + color.Reset
 	}
 
+	// The line fits exactly in the terminal width when its last row is full,
+	// which is not the case of an empty line printed on the first column.
+	lines := strings.Split(string(*e.line), "\n")
+	lastLine := lines[len(lines)-1]
+	fitsExactly := e.lineCol == 0 && (e.startCols > 0 || strutil.RealLength(lastLine) > 0)
+
 	// Format tabs as spaces, for consistent display
-	line = strutil.FormatTabs(line) + term.ClearLineAfter
+	line = strutil.FormatTabs(line)
+
+	// Clear the rest of the row, except when it is full: the cursor
+	// is then still on its last cell, which would be erased instead.
+	if !fitsExactly {
+		line += term.ClearLineAfter
+	}
 
 	// And display the line.
 	e.suggested.Set([]rune(line)...)
 	core.DisplayLine(&e.suggested, e.startCols)
 
 	// Adjust the cursor if the line fits exactly in the terminal width.
-	if e.lineCol == 0 {
+	if fitsExactly {
 		fmt.Print(term.NewlineReturn)
 		fmt.Print(term.ClearLineAfter)
 	}
